@@ -9,5 +9,5 @@ for d in benign/*/; do
   s=$(basename $d); echo "$s" | grep -Eq "$PAT" || continue
   g=${s%%-*}
   p=$d/patch.diff; [ -f $d/patch.rebased.diff ] && p=$d/patch.rebased.diff
-  ./benigntest.sh $(pwd)/$p ${CHECKS[$g]} 2>&1 | sed "s/^b[0-9] /$s /; s/^patch $s/";
+  ./benigntest.sh $(pwd)/$p ${CHECKS[$g]} 2>&1 | sed "s/^patch does not apply/$s - patch does not apply/"
 done | tee benign/regress.log | grep -E "exit=|does not apply" | awk '{print $1"\t"$2"\t"$3}' > benign/regress.tsv
